@@ -176,8 +176,11 @@ def changed_notebooks(ref_base, ref_remote, paths=None, repo_dir=None):
             entry.a_path, entry.a_blob, ref_base, repo_dir)
         if fa is None:
             continue
+        # For deletions, b_path still names the file, and an untracked file
+        # with that name may exist in the working tree
         fb = _get_diff_entry_stream(
-            entry.b_path, entry.b_blob, ref_remote, repo_dir)
+            None if entry.deleted_file else entry.b_path,
+            entry.b_blob, ref_remote, repo_dir)
         if fb is None:
             continue
         yield (fa, fb)
